@@ -90,6 +90,7 @@ func VerifC07_Match() {
 	n := len(shape)
 	crs := make([]*config.Route, n)
 	nodes := make([]*hNode07, n)
+	mvals := make([]string, n)
 	lset := model.LabelSet{"alertname": "x"}
 	for i := 0; i < n; i++ {
 		crs[i] = &config.Route{}
@@ -99,13 +100,24 @@ func VerifC07_Match() {
 			continue
 		}
 		ln := fmt.Sprintf("l%d", i)
-		mt, err := labels.NewMatcher(labels.MatchEqual, ln, "1")
+		// node i asks for l_i = "1" or for l_i = "" (the idiom for "label not set")
+		mval := "1"
+		if i <= 1+vfTier() { // (the first one or two children; kept small for the big trees)
+			if vfBool("matchesUnset") {
+				mval = ""
+			}
+		}
+		mvals[i] = mval
+		mt, err := labels.NewMatcher(labels.MatchEqual, ln, mval)
 		if err != nil {
 			panic(err)
 		}
 		crs[i].Matchers = append(crs[i].Matchers, mt)
-		// the label value is one symbolic byte: "does node i match" is symbolic
-		lset[model.LabelName(ln)] = model.LabelValue(vfString("v", 1))
+		// the label is absent, or its value is one symbolic byte: "does node i match"
+		// is symbolic
+		if i > 2 || !vfBool("labelAbsent") {
+			lset[model.LabelName(ln)] = model.LabelValue(vfString("v", 1))
+		}
 		if vfBool("continue") {
 			crs[i].Continue = true
 			nodes[i].cont = true
@@ -131,7 +143,7 @@ func VerifC07_Match() {
 	m := make([]bool, n)
 	m[0] = true
 	for i := 1; i < n; i++ {
-		m[i] = string(lset[model.LabelName(fmt.Sprintf("l%d", i))]) == "1"
+		m[i] = string(lset[model.LabelName(fmt.Sprintf("l%d", i))]) == mvals[i] // an absent label reads as ""
 	}
 	want := hRef07(nodes[0], m)
 	vfAssert("never-empty", len(got) > 0)
